@@ -124,6 +124,14 @@ def _install_patches():
             return real_sws(self, strategy, *a, **k)
 
         ils.IntegerLayoutEngine._solve_with_strategy = sws
+        if hasattr(ils.IntegerLayoutEngine, "_optimize_with_decomposition"):
+            real_dec = ils.IntegerLayoutEngine._optimize_with_decomposition
+
+            def dec(self, *a, **k):
+                _state["stats"]["decomposition"] = _state["stats"].get("decomposition", 0) + 1
+                return real_dec(self, *a, **k)
+
+            ils.IntegerLayoutEngine._optimize_with_decomposition = dec
         real_fb = ils.IntegerLayoutEngine._fallback_grid_layout
 
         def fb(self, *a, **k):
